@@ -12,7 +12,7 @@ open Node Raft Raft.CC RaftProps.C02 RaftProps.C05
 variable {cfg : JointConfig} {c0 : Nat} {h : List Sys}
 
 /-- a node that acknowledged an event has reached the event's term -/
-theorem acked_term (H : Hyp2 cfg c0 h) {n : Nat} {a : Sys} (ha : h[n]? = some a) {E : Ev}
+theorem acked_term (H : Hyp2w cfg c0 h) {n : Nat} {a : Sys} (ha : h[n]? = some a) {E : Ev}
     (hE : E.ok h) {v : Nat} {st : NState} (hv : a.node v = some st) (hk : AckedMem a n E v st) :
     E.t ≤ st.raft.term := by
   obtain ⟨_, _, hc0⟩ := Ev.leaderLog H hE
@@ -33,7 +33,7 @@ theorem acked_term (H : Hyp2 cfg c0 h) {n : Nat} {a : Sys} (ha : h[n]? = some a)
 /-- **the sender of an accepted batch agrees with a log that holds the committed entry**: wherever the
 sender's log (a leader's log of the event's term or a later one) holds an entry up to the committed
 index, the node's log holds the same entry -/
-theorem compat_has (H : Hyp2 cfg c0 h) {n : Nat} (S : SAll h c0 n) {a : Sys} (ha : h[n]? = some a)
+theorem compat_has (H : Hyp2w cfg c0 h) {n : Nat} (S : SAll h c0 n) {a : Sys} (ha : h[n]? = some a)
     {v : Nat} {st : NState} (hv : a.node v = some st) {E : Ev} (hE : E.ok h)
     (hh : Has st.raft.raftLog.abs E.c E.t) {τ : Nat} {L : LLog} (hL : LeaderLog h n τ L)
     (hle : E.t ≤ τ) :
@@ -66,12 +66,12 @@ theorem acked_back {n : Nat} {a b : Sys} {E : Ev} {v : Nat} {st st' : NState}
     · exact .inr (hq x c)
   · exact .inr ⟨h1, by omega, h3⟩
 
-theorem retm_step (H : Hyp3 cfg c0 h) {n : Nat} (S : SAll h c0 n) {a b : Sys}
+theorem retm_step (H : Hyp3a cfg c0 h) {n : Nat} (S : SAll h c0 n) {a b : Sys}
     (ha : h[n]? = some a) (hb : h[n + 1]? = some b) :
     ∀ E : Ev, E.ok h → ∀ v st', b.node v = some st' → AckedMem b (n + 1) E v st' →
       Has st'.raft.raftLog.abs E.c E.t := by
   intro E hE v st' hvb hk
-  have H2 := H.toHyp2
+  have H2 := H.toHyp2w
   have Sa := S n a (Nat.le_refl _) ha
   obtain ⟨hEl, hEh, hc0⟩ := Ev.leaderLog H2 hE
   obtain ⟨k, stk, stk', hka, hkb, hoth, hs⟩ := stp_of H2 ha hb
